@@ -1,0 +1,17 @@
+//go:build verif
+
+// Contracts checked by /verif (govc). Comments only; not part of any normal build.
+
+package protocol
+
+// ---------------------------------------------------------------- concatenation header parser (C07, C03), bit-vector mode
+
+//@ pred is6(c string) = len(c) >= 6 && at(c, 0) == 5 && at(c, 1) == 0 && at(c, 2) == 3
+//@ pred is7(c string) = len(c) >= 7 && at(c, 0) == 6 && at(c, 1) == 8 && at(c, 2) == 4
+
+//@ func ParseLongSmsContent
+//@   mode bv
+//@   props C07,C03
+//@   ensures [C07 form6] is6(content) ==> valid && frameKey == int(at(content, 3)) && total == int(at(content, 4)) && index == int(at(content, 5)) && newContent == drop(content, 6)
+//@   ensures [C07 form7] !is6(content) && is7(content) ==> valid && frameKey == int(at(content, 3)) * 256 + int(at(content, 4)) && total == int(at(content, 5)) && index == int(at(content, 6)) && newContent == drop(content, 7)
+//@   ensures [C07 other] !is6(content) && !is7(content) ==> !valid && newContent == content
